@@ -97,6 +97,37 @@ def load_findings():
     return json.load(open(p)).get("findings", [])
 
 
+def run_hunted(pid, jobs=16):
+    """regression corpus: the standalone scripts of the hunting round (hunted/<id>/findingN.py, each compares rockit
+    with an independent computation, prints VIOLATION and exits 1 when rockit is wrong) for defects that were repaired;
+    hunted/corpus.json says which scripts belong to which property"""
+    import subprocess
+    from concurrent.futures import ThreadPoolExecutor
+    cp = os.path.join(VERIF, "hunted", "corpus.json")
+    if not os.path.exists(cp):
+        return [], 0
+    entries = [e for e in json.load(open(cp)) if e["property"] == pid]
+    from .common import REPO
+    env = dict(os.environ, PYTHONPATH="%s:%s" % (REPO, os.path.join(VERIF, "pydeps")), PYTHONHASHSEED="0")
+
+    def one(e):
+        path = os.path.join(VERIF, "hunted", e["script"])
+        try:
+            r = subprocess.run(["/venv/bin/python", path], env=env, capture_output=True, text=True, timeout=600, cwd=os.path.join(VERIF, "work"))
+            return e, r.returncode, [l for l in r.stdout.splitlines() if l.startswith("VIOLATION")][:2], r.stderr[-300:]
+        except subprocess.TimeoutExpired:
+            return e, 0, [], "timeout"
+    os.makedirs(os.path.join(VERIF, "work"), exist_ok=True)
+    with ThreadPoolExecutor(max_workers=max(1, min(jobs, len(entries) or 1))) as ex:
+        rs = list(ex.map(one, entries))
+    dis = []
+    for e, rc, lines, err in rs:
+        if rc == 1 and lines:
+            dis.append({"property": pid, "finding_key": None, "case": {"hunted_script": e["script"], "repaired_by": e.get("fixed_by")}, "points": [],
+                        "what": [{"what": "a repaired defect is back: " + lines[0][:400]}]})
+    return dis, len(entries)
+
+
 def write_replay(pid, obj):
     d = os.path.join(VERIF, "replays")
     os.makedirs(d, exist_ok=True)
@@ -170,6 +201,9 @@ def main(argv=None):
     if ok:
         try:
             res = mod.run(tier=tier, seed=seed, jobs=a.jobs)
+            hd, nh = run_hunted(pid, a.jobs)
+            res["disagreements"] = list(res.get("disagreements", [])) + hd
+            res.setdefault("extra", {})["hunted_regression_scripts"] = nh
         except Exception as e:
             obligations_broken.append({"what": "the correspondence engine failed to run",
                                        "error": "%s: %s" % (type(e).__name__, e),
